@@ -21,7 +21,7 @@ ASSUMPTIONS = ['ballots with equal rankings are generated only for meek/warren (
                'surplus transfers are counted from state diffs (an elected candidate\'s tally decreasing)']
 MIN_COUNTERS = {'counts_judged': 200, 'snapshots_checked': 2000, 'gregory_snapshots': 500, 'meek_snapshots': 300,
                 'qpq_snapshots': 100, 'rational_exact_checks': 20}
-WEIGHTS = dict(G1=3, G2=2, G3=2, G4=5, G5=1, G6=2, G7=2, G9=1, G10=1)
+WEIGHTS = dict(G1=3, G2=2, G3=2, G4=5, G4b=1, G5=1, G6=2, G7=2, G9=1, G10=1)
 ANCHOR_FILES = ['droop/rules/wigm.py', 'droop/rules/wigm_prf.py', 'droop/rules/cfer.py', 'droop/rules/scotland.py',
                 'droop/rules/mpls.py', 'droop/rules/meek.py', 'droop/rules/meek_prf.py', 'droop/rules/qpq.py',
                 'droop/rules/electionmethods.py', 'droop/record.py', 'droop/election.py']
